@@ -203,7 +203,7 @@ func (ex *Exec) assert(g *G, cond *Term, label string) {
 	}
 	if cond.IsFalse() {
 		ex.violate(g, "assert", label, "assertion is false on this path")
-		return
+		panic(abortPath{"done", "assertion failed concretely"})
 	}
 	if v, ok := ex.known[cond.id]; ok && v {
 		ex.res.Discharged++
